@@ -265,7 +265,7 @@ def run_one(case, cnt):
         cnt["leaks_at_quiescent_points"] += 1
         if o.cls in ("ok", "fail"):
             viol(f"module state not at rest after outcome {o.cls}: {o.leaks}; input starts: {brief}")
-    if case.get("cli") and o.cls in ("ok", "fail", "internal"):
+    if (case.get("cli") or o.cls == "ok") and o.cls in ("ok", "fail", "internal"):
         out.extend(cli_cross_check(case, o, cnt))
     return out, info
 
@@ -293,6 +293,8 @@ def cli_cross_check(case, o, cnt):
                 f.write(text)
             argv.append(name)
         argv += ["--report-format", "bare" if case["handler"] == "bare" else "graphical", "-o", os.path.join(scratch, "out.bin")]
+        if case.get("wseed", 0) % 2 or o.cls == "ok":
+            argv.append("--lst")          # the listing is produced from the same symbol table: whatever the names look like
         r = cli.run_cli(argv, root, scratch, timeout=300, tag="x")
         cnt["cli_cross_checks"] += 1
         for name, _ in case["files"]:
